@@ -532,6 +532,9 @@ fn run_session(rng: &mut Rng, si: u64, n_ops: u64, r: &mut Reports) {
             54 => Some(9),
             14 => Some(10),
             41 => Some(10),
+            7 => Some(11),
+            33 => Some(11),
+            62 => Some(11),
             48 => Some(8),
             37 => Some(6),
             44 => Some(1),
@@ -554,6 +557,7 @@ fn run_session(rng: &mut Rng, si: u64, n_ops: u64, r: &mut Reports) {
                 8 => s.op_block_burst(r),
                 9 => s.op_uncle_race(r),
                 10 => s.op_window_race(r),
+                11 => s.op_storm(r),
                 _ => s.op_pool_pressure(r),
             };
             if !ok {
@@ -2550,6 +2554,125 @@ impl Sess {
         }
         self.settle_template();
         self.check_template(r, 0, false).is_some()
+    }
+
+
+    /// C11 / C12 (no directed gate, plain contention): three threads submit independent
+    /// transactions (plus a few double spends of each other's inputs) while this thread delivers an
+    /// extension or a reorganisation that may propose / commit some of them. Nothing is judged in
+    /// flight; at quiescence the ordinary oracles run (recomputation of the dump, pool against the
+    /// new chain), a refused submission must not be pooled, and the templates the sampler caught
+    /// are judged.
+    fn op_storm(&mut self, r: &mut Reports) -> bool {
+        let Some(pre) = self.quiesce() else { return false };
+        let tip_n = self.tg.rc.get(&self.n_tip()).number;
+        let (w_close, _) = self.tg.rc.window;
+        let reorg = self.xrng.chance(400, 1000);
+        let depth = if reorg { (1 + self.xrng.below(w_close + 1)).min(tip_n.saturating_sub(1)) } else { 0 };
+        let cells = self.chain_cells(&pre, tip_n.saturating_sub(depth));
+        if cells.len() < 6 {
+            return true;
+        }
+        self.cur_op = "the submission storm";
+        let n = cells.len().min(6 + self.xrng.usize_below(6));
+        let mut txs: Vec<TransactionView> = vec![];
+        for c in cells.iter().take(n) {
+            self.tg.keep.insert(op_key(&c.0));
+            let rate = self.min_fee_rate + 100 + self.xrng.below(3_000);
+            let pad = self.xrng.usize_below(24);
+            if let Some(t) = self.simple_tx(std::slice::from_ref(c), rate, 0, &[], pad) {
+                txs.push(t);
+            }
+        }
+        // a few double spends (another transaction on the same input, higher fee rate)
+        for c in cells.iter().take(n).skip(n.saturating_sub(2)) {
+            let rate = self.min_fee_rate + 6_000 + self.xrng.below(3_000);
+            if let Some(t) = self.simple_tx(std::slice::from_ref(c), rate, 0, &[], 3) {
+                txs.push(t);
+            }
+        }
+        for t in &txs {
+            self.known.insert(t.proposal_short_id(), t.clone());
+        }
+        // the blocks propose (and, for a reorg of some depth, may commit) a part of them
+        let forced: Vec<TransactionView> = txs.iter().take(n / 2).cloned().collect();
+        let (blocks, old_tip, depth) = self.build_blocks(&pre, depth, &forced, true);
+        self.rng.shuffle(&mut txs);
+        let shares: Vec<Vec<TransactionView>> = (0..3).map(|k| txs.iter().skip(k).step_by(3).cloned().collect()).collect();
+        let delay_us = self.xrng.below(2_500);
+        let mut results: Vec<(TransactionView, Result<(), String>)> = vec![];
+        let mut delivered = false;
+        let mut channel_error = false;
+        {
+            let ctl0 = self.n.shared.tx_pool_controller().clone();
+            std::thread::scope(|s| {
+                let hs: Vec<_> = shares
+                    .iter()
+                    .map(|share| {
+                        let ctl = ctl0.clone();
+                        s.spawn(move || {
+                            let mut out = vec![];
+                            for t in share {
+                                let res = ctl.submit_local_tx(t.clone());
+                                out.push((t.clone(), res.map(|x| x.map(|_| ()).map_err(|e| e.to_string())).map_err(|e| e.to_string())));
+                            }
+                            out
+                        })
+                    })
+                    .collect();
+                std::thread::sleep(Duration::from_micros(delay_us));
+                delivered = self.deliver(&blocks, r);
+                for h in hs {
+                    for (t, res) in h.join().unwrap_or_default() {
+                        match res {
+                            Ok(x) => results.push((t, x)),
+                            Err(_) => channel_error = true,
+                        }
+                    }
+                }
+            });
+        }
+        if !delivered {
+            self.cur_op = "";
+            return false;
+        }
+        if channel_error {
+            r.c11.inconclusive("harness: submit_local_tx channel error in a submission storm");
+            self.cur_op = "";
+            return false;
+        }
+        r.c11.count("ops.scenario_storm");
+        r.c12.count("ops.scenario_storm");
+        r.c11.count_n("obs.storm.submissions", results.len() as u64);
+        r.c11.count_n("obs.storm.accepted", results.iter().filter(|x| x.1.is_ok()).count() as u64);
+        let new_tip = *blocks.last().unwrap();
+        self.now = self.now.max(self.tg.rc.get(&new_tip).block.timestamp());
+        vnode::node::set_time(self.now);
+        self.ops.push(format!("storm: {} submissions from 3 threads ({} accepted) while block(s) depth={} -> tip {}#{} (+{} blocks) arrived", results.len(), results.iter().filter(|x| x.1.is_ok()).count(), depth, hx(&new_tip), self.tg.rc.get(&new_tip).number, blocks.len()));
+        r.c11.count("ops.block");
+        if depth > 0 {
+            r.c12.count("reorgs");
+        }
+        if self.n_tip() != self.tg.tip() {
+            r.c12.violation("node_tip_differs_from_builder_tip", format!("node {} builder {}", hx(&self.n_tip()), hx(&self.tg.tip())), self.witness(json!({})));
+            self.cur_op = "";
+            return false;
+        }
+        let Some(post) = self.quiesce() else {
+            r.c12.inconclusive("watchdog: pool did not catch up with the chain tip in 30 s");
+            self.cur_op = "";
+            return false;
+        };
+        for (t, res) in &results {
+            r.c11.eval();
+            let id = t.proposal_short_id();
+            if res.is_err() && post.entries.iter().any(|e| e.id == id) {
+                r.c11.violation("submit.rejected_tx_in_pool", format!("submit_local_tx returned {:?} but the transaction is pooled", res), self.witness(json!({"tx": vbase::hex(t.hash().as_slice()), "submitted_in_a_storm": true})));
+            }
+        }
+        let ok = self.after_tip_change_with(&pre, post, old_tip, r);
+        self.cur_op = "";
+        ok
     }
 
     /// C11: submissions until the pool's size limit evicts (or refuses) something; only in
